@@ -504,6 +504,43 @@ def clear_denominators(D, max_rounds=12):
     return D
 
 
+def reduce_poly(P, rules, max_rounds=64):
+    """apply equational rules  atom**k == R  (R a polynomial not containing atom to a power >= k) until no monomial contains
+    atom to a power >= k.  rules: {atom key: (k, R)}"""
+    if not rules:
+        return P
+    for _ in range(max_rounds):
+        changed = False
+        out = {}
+        for mono, c in P.items():
+            hit = None
+            for key, ex in mono:
+                r = rules.get(key)
+                if r is not None and ex.denominator == 1 and ex >= r[0]:
+                    hit = (key, ex, r)
+                    break
+            if hit is None:
+                v = out.get(mono, 0) + c
+                if v == 0:
+                    out.pop(mono, None)
+                else:
+                    out[mono] = v
+                continue
+            changed = True
+            key, ex, (k, R) = hit
+            rest = tuple((a, e) for a, e in mono if a != key)
+            rem = ex - k
+            base = {(rest + (((key, rem),) if rem else ())): c}
+            base = {_mono(dict(m)): cc for m, cc in base.items()}
+            out = padd(out, pmul(base, R))
+        P = out
+        if not changed:
+            return P
+        if len(P) > MAX_TERMS:
+            raise TooBig()
+    return P
+
+
 def normalized_difference(got, want):
     """canonical polynomial of got - want (raises TooBig)"""
     N = Normalizer()
